@@ -359,3 +359,27 @@ def tlc_simulate(job, module, cfg_name, num, depth, seed, timeout=600):
             continue
         keep.append(s)
     return keep
+
+
+def apalache_inductive(job, module, init="Init", ind_init="IndInit", inv="IndInv", timeout=900):
+    """Discharge an inductive invariant with Apalache: Init => Inv, and Inv /\ Next => Inv'."""
+    d = _stage(job, None, "", "unused.cfg")
+    res = {"module": module, "obligations": 2, "discharged": 0, "wall_s": 0.0}
+    t0 = time.time()
+    for (i0, length) in ((init, 0), (ind_init, 1)):
+        cmd = ["timeout", str(timeout), "apalache-mc", "check", "--init=" + i0, "--inv=" + inv, "--length=%d" % length,
+               "--out-dir=" + os.path.join(d, "out"), module + ".tla"]
+        p = subprocess.run(cmd, cwd=d, stdout=subprocess.PIPE, stderr=subprocess.STDOUT, text=True)
+        if p.returncode == 124:
+            shutil.rmtree(d, ignore_errors=True)
+            raise ToolError("apalache timed out on %s" % module)
+        if "The outcome is: NoError" in p.stdout:
+            res["discharged"] += 1
+        elif "The outcome is: Error" in p.stdout:
+            res.setdefault("failed", []).append("%s length %d" % (i0, length))
+        else:
+            shutil.rmtree(d, ignore_errors=True)
+            raise ToolError("apalache failed on %s: %s" % (module, p.stdout[-600:]))
+    res["wall_s"] = round(time.time() - t0, 1)
+    shutil.rmtree(d, ignore_errors=True)
+    return res
